@@ -39,6 +39,62 @@ CLAIMED = {
     ),
 }
 
+CLAIMED.update({
+    "C02": dict(
+        category="other",
+        text="Decides the algebraic identities conservation, reciprocity and the M-matrix property reduce to, for all "
+             "positive geometries (polynomial identities): the axial-conductance helpers, instantiated with the roles "
+             "(sink/source, parameter) read off their call sites, equal the textbook centre-to-centre conductance per "
+             "sink area; absolute conductance is symmetric; branch-point weights are proportional to absolute "
+             "conductances; conductances are positive; stimulus current is I/(2 pi r l)*1e5 gathered and additively "
+             "scattered with one index array. Does not decide floating-point behaviour of a run.",
+        design_ref="DESIGN.md §3 C02",
+        note="Trusted: python ast; positivity of radius/length/resistivity/capacitance; assembly pairing is judged by C01.",
+        technique="call-site role extraction (def-use terms) + exact rational identities",
+    ),
+    "C08": dict(
+        category="other",
+        text="Index-space typing per key class (node/synapse): the spaces of recordings.rec_index, external_inds[key] "
+             "and the per-type synapse arrays are defined by their stores and every gather/scatter/membership test "
+             "must conform; ordering of clamps after updates on every solver path; zero-padding/truncation/"
+             "transposition of externals; recs layout; sibling agreement of stimulate/clamp with data_ twins. "
+             "Decides where rows land for every wiring; not the numeric values.",
+        design_ref="DESIGN.md §3 C08",
+        note="Trusted: python ast; primitive producers of index spaces (Appendix B); pandas order semantics.",
+        technique="index-space typing over def-use provenance terms + ordering rules on the syntax tree",
+    ),
+    "C10": dict(
+        category="other",
+        text="set/data_set/make_trainable select the same rows (in-view rows of the owning table where the key is "
+             "set); trainable values are scattered with indices whose space equals the array's position space "
+             "(E->S rank conversion for synapse keys); a -1 padded index reaches a scatter only through "
+             "mode='drop' with the pad moved out of range; write_trainables reuses the simulation's pstate "
+             "construction; the two trainable lists change together.",
+        design_ref="DESIGN.md §3 C10",
+        note="Trusted: python ast; jax .at[].set(mode='drop') semantics; producer seeds of Appendix B.",
+        technique="index-space typing with pad-sentinel tracking + row-selector provenance",
+    ),
+    "C15": dict(
+        category="other",
+        text="Only the units clause is decided: every conversion constant (10^7 axial, 10^5 point process, 1000 "
+             "mA->uA, /capacitance) equals what the documented units force, by exact comparison with the textbook "
+             "formula rewritten in cm/S/A. Convergence orders are limits over runs and are not decided.",
+        design_ref="DESIGN.md §3 C15",
+        note="Trusted: documented units as seeds. The convergence-order clauses of C15 are NOT covered (numerical).",
+        technique="exact rational identities against unit-rewritten textbook formulas",
+    ),
+    "C17": dict(
+        category="other",
+        text="inverse(forward(x))==x and forward(inverse(y))==y as identities of canonical exp/log forms on the "
+             "unsaturated domain; clipped exponentials inside declared bijections are reported; strict monotonicity "
+             "by the sign of d forward/d exp(x); limits of forward equal the declared bounds; composite transforms "
+             "delegate in the right order/direction with one mask; no Python branch on the value.",
+        design_ref="DESIGN.md §3 C17",
+        note="Trusted: python ast; upper>lower for SigmoidTransform; round-off not decided; CustomTransform is user code.",
+        technique="exact exp/log term algebra, symbolic limits and derivative signs",
+    ),
+})
+
 NOT_APPLICABLE = {
 }
 
